@@ -682,7 +682,7 @@ class Gen:
     # ------------------------------------------------------------------ idioms
     def s_idiom(self, ctx):
         r = self.r
-        k = r.randrange(0, 14)
+        k = r.randrange(0, 15)
         s = self.fresh("")
         V = A.Var
         if k == 0:      # counter closure
@@ -775,6 +775,17 @@ class Gen:
                                                                           A.Return(A.IStr([V("x"), ":", A.Call(A.Prop(V("loc"), "type", True), [])]))])))]),
                 A.For(A.lst(V("_"), V("f")), V(fs), [A.pr(A.call("f", A.Int(1))), A.pr(A.call("f", self.expr(INT, ctx, 2)))]),
                 A.pr(V(acc)),
+            ]
+        if k == 14:     # closures created in a while loop capture that iteration's declarations
+            self.feat("while_closures")
+            fs, i = "wf" + s, "wi" + s
+            return [
+                A.Declare(V(fs), A.lst()), A.Declare(V(i), A.Int(0)),
+                A.While(A.Bin("<", V(i), A.Int(3)), [
+                    A.Declare(V("loc"), A.Bin("*", V(i), A.Int(10))), A.OpAssign("+", V(i), A.Int(1)),
+                    A.If([(A.Bin("==", V(i), A.Int(2)), [A.Declare(V("only2"), A.Str("two")), A.OpAssign("+", V(fs), A.lst(A.FuncE([], False, [A.Return(V("only2"))])))])], None),
+                    A.OpAssign("+", V(fs), A.lst(A.FuncE([], False, [A.OpAssign("+", V("loc"), A.Int(1)), A.Return(V("loc"))])))]),
+                A.For(A.lst(V("_"), V("f")), V(fs), [A.pr(A.call("f")), A.pr(A.call("f"))]),
             ]
         if k == 9:      # nested for-target patterns over a list of pairs / objects
             self.feat("for_nested_pattern")
